@@ -366,8 +366,12 @@ class Rule(
         if configuration.modules_to_check is None:
             return None
 
+        # only a module that is checked itself covers its submodules: 'sub modules of X' does not include X, which can
+        # still be imported by the submodules of one of its submodules
         module_names = sorted(
-            map(lambda m: m.identifier, configuration.modules_to_check)
+            m.identifier
+            for m in configuration.modules_to_check
+            if not m.identifier_is_parent_module
         )
 
         result = []
